@@ -117,7 +117,7 @@ fn exec_cmd(args: &[String]) {
     let mut rng = Rng::new(seed.wrapping_mul(7_000_003).wrapping_add(si).wrapping_add(0xE8EC));
     for _ in 0..count {
         let mut r = rng.fork();
-        let regs = prog::gen_exec(&mut r, gen == "kf1");
+        let regs = if gen == "funnel" { prog::gen_funnel_n(&mut r, 14) } else { prog::gen_exec(&mut r, gen == "kf1") };
         let mut tags = Vec::new();
         prog::all_tags(&regs, &mut tags);
         let uses_menu = prog::uses_menu(&regs);
@@ -133,6 +133,8 @@ fn exec_cmd(args: &[String]) {
                 faults.sort(); faults.dedup();
             }
             if r.chance(1, 2) { exec::Mode::Overlap } else { exec::Mode::Jitter(r.next()) }
+        } else if gen == "funnel" {
+            if r.chance(2, 3) { exec::Mode::Overlap } else { exec::Mode::Jitter(r.next()) }
         } else {
             match r.below(6) {
                 0 => exec::Mode::Free,
